@@ -1253,7 +1253,7 @@ def evaluate(chk, pid, scns, results, tag):
     return views, viol, harness_bad, bad, terms
 
 
-def main(pid, coq_targets, tier=None, seed=None, replay=None):
+def main(pid, coq_targets, tier=None, seed=None, replay=None, tie_targets=None, regen=None):
     chk = common.Check(pid, tier, seed)
     if replay:
         with open(replay) as fh:
@@ -1268,12 +1268,37 @@ def main(pid, coq_targets, tier=None, seed=None, replay=None):
         print("model:", diagnose(pid, coq_trace(v.log, v.scn)))
         return 1 if msgs else 0
 
+    tie_T = None
+    if regen is not None and not replay:
+        try:
+            regen(chk)
+            tie_T = "ok"
+        except Exception as e:
+            tie_T = "broken: %s" % e
+            chk.note("translator tie lost: %s" % e)
     ok_build, log = chk.build_props(coq_targets)
     broken = []
     if not ok_build:
         tail = "\n".join(log.splitlines()[-25:])
         chk.note("coq build failed:\n" + tail)
         broken.append({"kind": "proof", "detail": tail})
+    escalate = False
+    if tie_targets:
+        if tie_T == "ok":
+            ok_tie, log_tie = common.coq_make(tie_targets, timeout=600, force=tie_targets)
+            tie_ass = common.parse_assumptions(log_tie)
+            names = common.count_statements([t[:-1] for t in tie_targets])
+            chk.coverage["tie_theorems"] = names
+            chk.coverage["tie_print_assumptions"] = tie_ass
+            if not ok_tie or any(a != "Closed under the global context" for a in tie_ass):
+                tie_T = "broken: the generated kernel no longer provably meets its contract:\n" + "\n".join(log_tie.splitlines()[-10:])
+                chk.note("translator tie lost: " + tie_T[-600:])
+            else:
+                chk.coverage["obligations"] = chk.coverage.get("obligations", 0) + len(names)
+                chk.coverage["discharged"] = chk.coverage.get("discharged", 0) + len(names)
+        if tie_T != "ok":
+            escalate = True      # a lost tie alone is no alarm: run the scenario families at thorough strength
+            chk.note("escalating to thorough-strength scenarios because the translator tie is lost")
     okc, logc = common.coq_make(COQ_TARGETS_COMMON)
     if not okc:
         broken.append({"kind": "correspondence", "detail": "RTCorr does not build: " + logc[-800:]})
@@ -1286,7 +1311,7 @@ def main(pid, coq_targets, tier=None, seed=None, replay=None):
                     PREFER_FILES[:] = [os.path.basename(f) for f in pr["anchors"]["files"] if "/runners/" in f]
     except Exception:
         pass
-    n = (N_THOROUGH if chk.tier == "thorough" else N_QUICK)[pid]
+    n = (N_THOROUGH if (chk.tier == "thorough" or escalate) else N_QUICK)[pid]
     rng = chk.rng("scenarios")
     scns = gen_scenarios(pid, rng, n)
     results = run_many(scns, tag="rt_" + pid)
@@ -1388,7 +1413,9 @@ def main(pid, coq_targets, tier=None, seed=None, replay=None):
         "model_disagreements": n_mism,
         "harness_problems": len(harness_bad),
         "mean_wall_s": round(sum(r.get("wall", 0) for r in results) / max(1, len(results)), 2),
-        "tie": "trace correspondence (real runtime traces replayed through RT.run by vm_compute)",
+        "tie": ("trace correspondence (real runtime traces replayed through RT.run by vm_compute)"
+                + ("" if tie_T is None else (" + translator tie for the guard kernel" if tie_T == "ok"
+                                             else "; translator tie lost: " + tie_T[:200]))),
     })
     chk.write_evidence(TRUSTED_BASE, ASSUMPTIONS)
     return chk.exit_code()
